@@ -27,15 +27,20 @@ def gen(run):
 
 def correspond(run, corr):
     wc.correspond(run, corr, CORR_PROFILES, 10000, 150000)
+    if ID == "C03":
+        # interleaving model vs the real code under forced schedules (one socket-thread operation x one tick, every boundary)
+        wc.sched_correspond(run, corr)
     if ID == "C05":
         trxcon_part.correspond(run, corr, parts=("cmd", "rsp"))
 
 
 def search(run, corr, deep):
-    found = wc.oracle(run, corr, deep, ID, ORACLE_PROFILES, 6000, 100000)
+    found = 0
     if ID == "C03":
         # thread schedules: one socket-thread operation racing one tick at every atomic-action boundary
         found += wc.sched_oracle(run, corr, deep)
+    # the history oracle searches deeper when a proof or a tie broke, unless the schedule oracle has already produced the failing schedule
+    found += wc.oracle(run, corr, deep and not found, ID, ORACLE_PROFILES, 6000, 100000)
     if ID == "C05":
         # trxcon side: real trx_if.c command emission / response parser, and the cross run with the real toolkit
         found += trxcon_part.oracle(run, corr, deep, parts=("cmd", "rsp"))
